@@ -9,6 +9,7 @@ import (
 	"github.com/mgtv-tech/redis-GunYu/pkg/redis"
 	"github.com/mgtv-tech/redis-GunYu/pkg/redis/checkpoint"
 	cluster "github.com/mgtv-tech/redis-GunYu/pkg/redis/client/cluster"
+	"github.com/mgtv-tech/redis-GunYu/pkg/util"
 	"github.com/mgtv-tech/redis-GunYu/verifshim/mc"
 	"github.com/mgtv-tech/redis-GunYu/verifshim/ref"
 )
@@ -173,6 +174,82 @@ func runC11(rep *mc.Reporter) {
 						map[string]interface{}{"key": fmt.Sprintf("%q", key), "range": rg, "ref_slot": sl, "rejected": rejected})
 				}
 				rep.Exec(c11Case{"filter.FilterSlot", fmt.Sprintf("%q %v", key, rg)}, nil, res)
+			}
+		}
+	}
+
+	// (5) call sequences over ONE reused buffer. The slot functions are pure by specification, but
+	// the tool calls them with zero-copy string views (util.BytesToString) of buffers it rewrites in
+	// place (syncer.pickSuffixDfs, the decoders): an implementation that keeps anything from an
+	// earlier call (a memo keyed by the string it was given, a cached tag position) answers for the
+	// OLD bytes. Every ordered pair of keys up to length 3 (and every triple up to length 2) over the
+	// brace alphabet is written into the same backing array, one after the other, and each answer is
+	// compared with the reference for the bytes the buffer holds at that moment.
+	{
+		var pool [][]byte
+		var mk func(prefix []byte, depth int)
+		mk = func(prefix []byte, depth int) {
+			if len(prefix) > 0 {
+				pool = append(pool, append([]byte(nil), prefix...))
+			}
+			if depth == 3 {
+				return
+			}
+			for _, c := range alpha {
+				mk(append(append([]byte(nil), prefix...), c), depth+1)
+			}
+		}
+		mk(nil, 0)
+		type slotFn struct {
+			name string
+			call func(view []byte) int
+		}
+		fns := []slotFn{
+			{"redis.KeyToSlot", func(v []byte) int { return int(redis.KeyToSlot(util.BytesToString(v))) }},
+			{"cluster.GetSlot", func(v []byte) int { s, _ := cluster.GetSlot(util.BytesToString(v)); return int(s) }},
+			{"cluster.GetSlot([]byte)", func(v []byte) int { s, _ := cluster.GetSlot(v); return int(s) }},
+		}
+		seq := func(fn slotFn, keys ...[]byte) {
+			buf := make([]byte, 8)
+			for i, k := range keys {
+				copy(buf, k)
+				view := buf[:len(k)]
+				got := fn.call(view)
+				want := ref.HashSlot(k)
+				if got != want {
+					var hist []string
+					for _, h := range keys[:i+1] {
+						hist = append(hist, fmt.Sprintf("%q", h))
+					}
+					rep.Exec(c11Case{fn.name + "/reused-buffer", strings.Join(hist, " then ")}, nil,
+						mc.Violation("slot differs from HASH_SLOT when the key is a view of a buffer that held another key before", fn.name+":reused-buffer",
+							map[string]interface{}{"fn": fn.name, "calls_on_one_buffer": hist, "got": got, "want": want}))
+					return
+				}
+			}
+			rep.Exec(c11Case{fn.name + "/reused-buffer", fmt.Sprintf("%q..%q", keys[0], keys[len(keys)-1])}, nil,
+				mc.OK(mc.Hash("seq", fn.name, fmt.Sprint(keys)), true, len(keys)))
+		}
+		n := 0
+		for _, a := range pool {
+			for _, b := range pool {
+				if string(a) == string(b) || (len(a) != len(b) && len(a)+len(b) > 4) {
+					continue
+				}
+				n++
+				if n%nshards != shard || budget.Expired() {
+					continue
+				}
+				for _, fn := range fns {
+					seq(fn, a, b)
+					if len(a) <= 2 && len(b) <= 2 {
+						for _, c := range pool {
+							if len(c) <= 2 && len(a) == len(b) && len(c) == len(a) {
+								seq(fn, a, b, c)
+							}
+						}
+					}
+				}
 			}
 		}
 	}
